@@ -1141,12 +1141,12 @@ func (m *Manager) UnconfirmedParents(txn types.Transaction) []types.Transaction 
 	m.revalidatePool()
 
 	parentMap := m.computeParentMap()
-	var parents []types.Transaction
+	var indices []int
 	seen := make(map[int]bool)
 	check := func(id types.Hash256) {
 		if index, ok := parentMap[id]; ok && !seen[index] {
 			seen[index] = true
-			parents = append(parents, m.txpool.txns[index])
+			indices = append(indices, index)
 		}
 	}
 	addParents := func(txn types.Transaction) {
@@ -1166,19 +1166,14 @@ func (m *Manager) UnconfirmedParents(txn types.Transaction) []types.Transaction 
 
 	// check txn, then keep checking parents until done
 	addParents(txn)
-	for {
-		n := len(parents)
-		for _, txn := range parents {
-			addParents(txn)
-		}
-		if len(parents) == n {
-			break
-		}
+	for i := 0; i < len(indices); i++ {
+		addParents(m.txpool.txns[indices[i]])
 	}
-	// reverse so that parents always come before children
-	for i := 0; i < len(parents)/2; i++ {
-		j := len(parents) - 1 - i
-		parents[i], parents[j] = parents[j], parents[i]
+	// the pool holds parents before their children; keep that order
+	sort.Ints(indices)
+	var parents []types.Transaction
+	for _, index := range indices {
+		parents = append(parents, m.txpool.txns[index])
 	}
 	return parents
 }
@@ -1194,12 +1189,12 @@ func (m *Manager) V2TransactionSet(basis types.ChainIndex, txn types.V2Transacti
 
 	// get the transaction's parents
 	parentMap := m.computeV2ParentMap()
-	var parents []types.V2Transaction
+	var indices []int
 	seen := make(map[int]bool)
 	check := func(id types.Hash256) {
 		if index, ok := parentMap[id]; ok && !seen[index] {
 			seen[index] = true
-			parents = append(parents, m.txpool.v2txns[index].DeepCopy())
+			indices = append(indices, index)
 		}
 	}
 	addParents := func(txn types.V2Transaction) {
@@ -1219,19 +1214,14 @@ func (m *Manager) V2TransactionSet(basis types.ChainIndex, txn types.V2Transacti
 
 	// check txn, then keep checking parents until done
 	addParents(txn)
-	for {
-		n := len(parents)
-		for _, txn := range parents {
-			addParents(txn)
-		}
-		if len(parents) == n {
-			break
-		}
+	for i := 0; i < len(indices); i++ {
+		addParents(m.txpool.v2txns[indices[i]])
 	}
-	// reverse so that parents always come before children
-	for i := range len(parents) / 2 {
-		j := len(parents) - 1 - i
-		parents[i], parents[j] = parents[j], parents[i]
+	// the pool holds parents before their children; keep that order
+	sort.Ints(indices)
+	parents := make([]types.V2Transaction, 0, len(indices)+1)
+	for _, index := range indices {
+		parents = append(parents, m.txpool.v2txns[index].DeepCopy())
 	}
 
 	// update the transaction's basis to match tip
